@@ -4,13 +4,10 @@ package proxy
 
 import (
 	"net"
-
-	"github.com/nextdns/nextdns/internal/dnsmessage"
-	"github.com/nextdns/nextdns/resolver"
-	"github.com/nextdns/nextdns/resolver/query"
 )
 
-// Exports for the /verif correspondence harness (injected with -overlay; not part of /repo).
+// Exports for the /verif correspondence harness (injected with -overlay; not part of /repo). Only what the harness uses:
+// every export couples the build of the harness to a signature.
 
 const (
 	VerifMaxUDPSize  = maxUDPSize
@@ -18,18 +15,11 @@ const (
 	VerifMaxTCPSize  = maxTCPSize
 )
 
-func VerifReplyRCode(rcode int, q query.Query, buf []byte) int {
-	return replyRCode(dnsmessage.RCode(rcode), q, buf)
-}
-
-func VerifHostsResolve(r HostResolver, q query.Query, buf []byte) (int, resolver.ResolveInfo, error) {
-	return hostsResolve(r, q, buf)
-}
-
 func VerifIsPrivateReverse(qname string) bool { return isPrivateReverse(qname) }
 func VerifPtrIP(ptr string) net.IP            { return ptrIP(ptr) }
-func VerifIsNXDomain(msg []byte) bool         { return isNXDomain(msg) }
 
 // VerifServeUDP runs the real UDP listener loop on a socket the harness owns (so that it can make the pending read
 // fail), with the given inflight semaphore.
-func (p Proxy) VerifServeUDP(l net.PacketConn, inflight chan struct{}) error { return p.serveUDP(l, inflight) }
+func (p Proxy) VerifServeUDP(l net.PacketConn, inflight chan struct{}) error {
+	return p.serveUDP(l, inflight)
+}
